@@ -87,7 +87,12 @@ func (f *formatValidator) Validate(val interface{}) *Result {
 		result = new(Result)
 	}
 
-	if err := FormatOf(f.Path, f.In, f.Format, val.(string), f.KnownFormats); err != nil {
+	str, ok := val.(string)
+	if !ok {
+		// Applies selects every value of string kind: named string types and json.Number are not a string
+		str = reflect.ValueOf(val).String()
+	}
+	if err := FormatOf(f.Path, f.In, f.Format, str, f.KnownFormats); err != nil {
 		result.AddErrors(err)
 	}
 
